@@ -22,7 +22,7 @@ RULE = ('histories: every ordered tree shape (quick <= 5 nodes, thorough <= 7 no
         'ids x random histories <= 40; codec: seeded growth paths of nested states whose compressed size '
         'walks through every value up to 130..700 bytes. One case = one request (or one codec state); it '
         'is non-trivial when the tree has a node that can be expanded (the state is non-empty); distinct = '
-        'distinct (variant, tree, cookie before, action) resp. distinct encoded strings')
+        'distinct (variant, tree, history so far, action) resp. distinct encoded strings')
 ASSUMPTIONS = ['sibling ids are unique (a path of ids names one node); ids are str or int',
                'a leaf may carry a link (assume_children): only nodes WITH children are required to '
                'carry exactly one; a clicked leaf simply joins the expanded set',
@@ -131,16 +131,25 @@ class Monitors:
         TreeTag.apply_diff = apply_diff
 
 
+def size_bucket(n):
+    if n < 171:
+        return '%04d-%04d' % (n // 19 * 19, n // 19 * 19 + 18)
+    if n < 570:
+        return '%04d-%04d' % (n // 57 * 57, n // 57 * 57 + 56)
+    return '%04d-%04d' % (n // 570 * 570, n // 570 * 570 + 569)
+
+
 def short(x, n=240):
     s = x if isinstance(x, str) else repr(x)
     return s if len(s) <= n else s[:n] + '...(%d)' % len(s)
 
 
 def slug(s):
-    out = ''.join(c if c.isalnum() else '_' for c in s[:48])
-    while '__' in out:
-        out = out.replace('__', '_')
-    return out.strip('_')
+    """Class of a problem message: its first words without ids, numbers and quoted data."""
+    import re
+    s = re.sub(r"'[^']*'|\"[^\"]*\"|\[.*?\]|\(.*?\)|\d+", ' ', s.split(':')[0])
+    words = re.findall(r'[A-Za-z_]+', s)[:5]
+    return '_'.join(words) or 'problem'
 
 
 # ---------------------------------------------------------------- classifier of known mechanisms
@@ -236,8 +245,9 @@ class Browser:
             form, effect = self.last_form, self.last_effect
         else:
             raise ValueError(action)
-        ctx.case((self.vname, self.treekey, self.cookie, tuple(action),
-                  tuple(form) if kind == 'refresh' else None), self.nontrivial)
+        # described by the history (deterministic); BFS evaluates each (state, action) once
+        ctx.case((self.vname, self.treekey, tuple(map(tuple, self.history)), tuple(action)),
+                 self.nontrivial)
         ctx.count('requests:' + kind)
         case = self.case(action)
         # model transition
@@ -367,7 +377,7 @@ class Browser:
             except U.FormError as e:
                 problems.append('cookie: %s' % e)
                 continue
-            ctx.table('cookie compressed bytes', '%03d-%03d' % (n // 19 * 19, n // 19 * 19 + 18))
+            ctx.table('cookie compressed bytes', size_bucket(n))
             if n > 57:
                 ctx.count('histories:cookie over 57 compressed bytes')
             if len(value) > 76:
@@ -633,7 +643,8 @@ def run(ctx, spec):
         ctx.table('id schemes', scheme)
         ctx.table('variants (bfs)', vname)
         b = bfs(ctx, mon, templates, vname, tspec, treekey, HISTLEN[tier])
-        if b is not None and sampled < 2 and b.history and len(b.history) >= 3 and scheme in ('uni', 'mixed'):
+        if (b is not None and sampled < 2 and len(b.history) >= 4 and b.page and len(b.page) >= 3
+                and any(l for t, l in b.page) and scheme in ('uni', 'mixed', 'urlish')):
             sampled += 1
             ctx.sample({'template': b.src, 'tree': treekey, 'history': b.history,
                         'cookie': b.cookie, 'cookie_decoded': U.indep_decode(b.cookie)[0],
